@@ -108,6 +108,10 @@ static const op_info_t op_flags[PIXMAN_N_OPERATORS] =
 };
 
 #define SCANLINE_BUFFER_LENGTH 8192
+#if defined (PIXMAN_VERIF) && defined (PIXMAN_VERIF_SCANLINE_BUFFER_LENGTH)
+#undef  SCANLINE_BUFFER_LENGTH
+#define SCANLINE_BUFFER_LENGTH (PIXMAN_VERIF_SCANLINE_BUFFER_LENGTH)
+#endif
 
 static pixman_bool_t
 operator_needs_division (pixman_op_t op)
